@@ -171,11 +171,35 @@ DC_SPECS['dc_sub'] = dict(name='DcSub', opts={}, inherit='dc_struct',
                           own=[_f('c', 'float', ['value', '1.5'])],
                           fields=DC_SPECS['dc_struct']['fields'] + [_f('c', 'float', ['value', '1.5'])])
 
+# a subclass that INHERITS a raising __post_init__ (nothing about the hook in its own body) and adds a field; tuple layout enabled
+DC_SPECS['dc_post_sub'] = dict(name='DcPostSub', opts={'in_format': ['struct', 'tuple']}, inherit='dc_post',
+                               own=[_f('c', 'int', ['value', '0'])],
+                               fields=DC_SPECS['dc_post']['fields'] + [_f('c', 'int', ['value', '0'])],
+                               post_model=DC_SPECS['dc_post']['post'])
+
+# a SUBSCRIPTED generic dataclass whose field is another generic dataclass, partially re-parameterised: Outer[str] with
+# p: Pair[T, int], tag: T  (the model describes the result of the substitution: p is Pair[str, int], tag is str)
+DC_SPECS['dc_gen'] = dict(name='Outer', opts={}, generic=True, fields=[_f('p', 'dc_gen_pair'), _f('tag', 'str')])
+
 _DC_CACHE: t.Dict[str, type] = {}
+_GT, _GU = t.TypeVar('_GT'), t.TypeVar('_GU')
+
+
+def _build_generic_fixtures():
+    import pane
+    from mc.classes_gen import new_class
+    Pair = new_class('Pair', (pane.PaneBase, t.Generic[_GT, _GU]), {'__annotations__': {'a': _GT, 'b': _GU}, '__module__': 'mc.generated'})
+    Outer = new_class('Outer', (pane.PaneBase, t.Generic[_GT]), {'__annotations__': {'p': Pair[_GT, int], 'tag': _GT}, '__module__': 'mc.generated'})
+    REGISTRY.extend([Pair, Outer])
+    _DC_CACHE['dc_gen'] = pin(Outer[str])
+    _DC_CACHE['dc_gen_pair'] = pin(_DC_CACHE['dc_gen'].__pane_info__.fields[0].type)
 
 
 def dc_class(leaf: str) -> type:
     c = _DC_CACHE.get(leaf)
+    if c is None and leaf in ('dc_gen', 'dc_gen_pair'):
+        _build_generic_fixtures()
+        c = _DC_CACHE[leaf]
     if c is None:
         from mc import values
         spec = DC_SPECS[leaf]
@@ -227,6 +251,8 @@ for _k in DC_SPECS:
 ALL_LEAVES = list(LEAF_TYPES)      # leaves the reference model knows
 DC_LEAVES = list(DC_SPECS)
 
+DC_SPECS['dc_gen_pair'] = dict(name='Pair', opts={}, generic=True, fields=[_f('a', 'str'), _f('b', 'int')])
+LEAF_TYPES['dc_gen_pair'] = (lambda: [dc_class('dc_gen_pair')])
 # leaves the model knows but which are not enumerated on their own: the tag literals and variant classes of the tagged unions
 LEAF_TYPES.update({'lit_v1': lambda: [t.Literal['v1']], 'lit_v2': lambda: [t.Literal['v2']], 'lit_1': lambda: [t.Literal[1]],
                    'lit_2': lambda: [t.Literal[2]]})
@@ -236,7 +262,10 @@ DC_SPECS.update({
     'dc_i1': dict(name='I1', fields=[_f('x', 'lit_1', ['value', '1']), _f('y', 'int', ['value', '1'])]),
     'dc_i2': dict(name='I2', fields=[_f('x', 'lit_2', ['value', '2']), _f('y', ['list', 'int'], ['factory', 'list'])]),
 })
-for _k in ('dc_v1', 'dc_v2', 'dc_i1', 'dc_i2'):
+# a positional-OUTPUT dataclass holding an externally tagged union: each field is written by ITS declared type, in every layout
+DC_SPECS['dc_tuptag'] = dict(name='DcTuptag', opts={'in_format': ['tuple', 'struct'], 'out_format': 'tuple'},
+                             fields=[_f('n', 'int'), _f('u', 'tag_ext'), _f('w', 'tag_adj')])
+for _k in ('dc_v1', 'dc_v2', 'dc_i1', 'dc_i2', 'dc_tuptag'):
     LEAF_TYPES[_k] = (lambda k=_k: [dc_class(k)])
 # tagged unions over them: (layout, {tag: variant leaf})
 TAGGED = {'tag_int': ('internal', {'v1': 'dc_v1', 'v2': 'dc_v2'}), 'tag_ext': ('external', {'v1': 'dc_v1', 'v2': 'dc_v2'}),
@@ -674,6 +703,8 @@ def expressions(tier: str) -> t.List[t.Any]:
             for e in (['list', u], ['tuplevar', u], ['dict', 'str', u], ['deque', u], ['tuple', u, 'int'], ['struct', ['k', u]],
                       ['optional', u], ['list', ['list', u]]):
                 add(e)
+    for e in ('dc_tuptag', ['list', 'dc_tuptag'], ['optional', 'dc_tuptag']):
+        add(e)
     for e in (['set', 'dc_hidden'], ['frozenset', 'dc_hidden'], ['dict', 'dc_hidden', 'int'], ['list', ['set', 'dc_hidden']]):
         add(e)
     # alternatives whose own descriptions coincide ("tuple of length 2") but which fail at different places
